@@ -331,17 +331,17 @@ def cases(rng, tier):
     for n in range(maxlen + 1):
         for t in itertools.product(alpha, repeat=n):
             pat = "".join(t)
-            for name in (names[:6] if (quick or n == 4) else names):
+            for name in (names[:6] if quick else names[:2] if n == 4 else names):
                 yield {"kind": "fn", "name": name, "pat": pat}
     # random bracket expressions
     calpha = "abcdz-!]^[\\&~|09"
-    for _ in range(1500 if quick else 15000):
+    for _ in range(1500 if quick else 8000):
         body = "".join(rng.choice(calpha) for _ in range(rng.randint(0, 7)))
         pat = rng.choice(["", "a", "*"]) + "[" + body + "]" + rng.choice(["", "b", "*", "?"])
         name = "".join(rng.choice(calpha + "ab") for _ in range(rng.randint(0, 3)))
         yield {"kind": "fn", "name": name, "pat": pat}
     # 2. _iter_for_location_by_parts directly (no ConfigObj restrictions on names)
-    for _ in range(600 if quick else 6000):
+    for _ in range(600 if quick else 3000):
         loc = gen_location(rng)
         secs = []
         for _ in range(rng.randint(0, 6)):
@@ -350,7 +350,7 @@ def cases(rng, tier):
                 secs.append(s)
         yield {"kind": "iter", "sections": secs, "location": loc}
     # 3. real locations.conf through LocationStack
-    for _ in range(1200 if quick else 12000):
+    for _ in range(1200 if quick else 8000):
         yield gen_loc_case(rng, "loc")
     for _ in range(200 if quick else 2000):
         yield gen_loc_case(rng, "bool")
@@ -362,7 +362,7 @@ def cases(rng, tier):
     for n in range(0, (3 if quick else 4) + 1):
         for t in itertools.product(spec if n < 4 else spec[:7], repeat=n):
             yield {"kind": "value", "v": "".join(t)}
-    for _ in range(300 if quick else 4000):
+    for _ in range(300 if quick else 3000):
         yield {"kind": "value", "v": gen_value(rng)}
     # 5. self locations
     for _ in range(150 if quick else 1500):
